@@ -394,7 +394,7 @@ theorem sh_killnone (c d : Cfg) (h : sh c = sh d) : sh { c with killing := none 
 theorem sh_notif (c d : Cfg) (n : Notif) (hn : notPP n = true) (h : sh c = sh d) :
     sh { c with notif := n :: c.notif } = sh { d with notif := n :: d.notif } := by
   obtain ⟨h1, h2, h3, h4, h5, h6, h7, h8, h9, h10, h11, h12, h13, h14, h15⟩ := sh_fields h
-  rw [sh_eq_iff]; simp [List.filter, hn, *]
+  rw [sh_eq_iff]; simp [List.filter, *]
 
 theorem enteredHooks_sh (c d : Cfg) (s s' : SObj) (h : sh c = sh d) (hs : SSim s s') :
     sh (enteredHooks c s) = sh (enteredHooks d s') := by
@@ -1162,7 +1162,7 @@ theorem wake_interrupted (c : Cfg) (fn wf k f : Nat) (aw : List (Nat × Nat)) (h
   rw [endOfStep_unfold]
   cases hint : c.interrupt with
   | none => exact absurd hint hi
-  | some i => simp only [prepare, hint]
+  | some i => simp only [prepare]
 
 theorem stepDoneK_waiting_pending (P : Prog) (k : Cfg → Bool) (c : Cfg) (fn wf : Nat) (wk aw)
     (h : c.st = .waiting fn wf wk aw) (hw : c.wfs[wf]? = some .pending) : stepDoneK P k c = true := by
@@ -1228,8 +1228,7 @@ theorem stepBodyK_terminal (P : Prog) (k : Cfg → Cfg) (c : Cfg) (ht : terminal
   · rename_i fn wf wk aw h; exact absurd h (h3 fn wf wk aw)
   · rfl
 
-theorem endOfStep_terminal_pf (c : Cfg) (ht : terminal c.st.label = true) (hi : c.interrupt = none)
-    (hs : c.stepping = false) :
+theorem endOfStep_terminal_pf (c : Cfg) (ht : terminal c.st.label = true) (hs : c.stepping = false) :
     PFrame c (endOfStep { c with stepping := true } (.next none)) ∧
     (endOfStep { c with stepping := true } (.next none)).interrupt = none := by
   rw [endOfStep_unfold, prepare_next_other _ none (by intro e he; cases he)]
@@ -1267,7 +1266,7 @@ theorem tick_lag (P : Prog) (c d : Cfg) (h : Lag P c d) (hinv : InvP c) (hI : In
       have hlab := hm.core.label
       by_cases ht : terminal c.st.label = true
       · have htd : terminal d0.st.label = true := hlab ▸ ht
-        obtain ⟨pf1, hi1⟩ := endOfStep_terminal_pf c ht hm.int hm.stepping
+        obtain ⟨pf1, hi1⟩ := endOfStep_terminal_pf c ht hm.stepping
         have hm1 : Mid (endOfStep { c with stepping := true } (.next none)) d0 :=
           ⟨hm.core.left pf1, hi1, (by have := (sh_fields pf1.1).1; rw [this]; exact hm.stepping),
             (by intro e he; rw [pf1.2.2.2, hpc] at he; cases he), hm.ncd⟩
@@ -1328,7 +1327,7 @@ theorem cancelAction_status_self (c : Cfg) (i : Nat) (hk : actionKind c i = some
     | none => simp [actionKind, ha] at hk
     | some a =>
       have hlt : i < c.actions.length := (List.getElem?_eq_some_iff.mp ha).1
-      simp [setActionStatus, ha, actionStatus, setAt, hlt]
+      simp [setActionStatus, actionStatus, setAt, hlt]
   · rename_i hnp
     rcases hs with hs | hs
     · exact absurd hs hnp
